@@ -187,19 +187,19 @@ int ref_supported(unsigned features, unsigned mask) {
 }
 int ref_load(const uint8_t b[32], unsigned mask, rseed *out) {
     rseed s; memset(&s, 0, sizeof s);
-    if (memcmp(b, "POLYSEED", 8)) return R_FORMAT;
+    if (memcmp(b, "POLYSEED", 8)) return ST_FORMAT;
     unsigned v = b[8] | (b[9] << 8);
-    if (v & 0x8000) return R_FORMAT;
-    if (b[28] & 0xC0) return R_FORMAT;
-    if (b[29] != 0xFF) return R_FORMAT;
+    if (v & 0x8000) return ST_FORMAT;
+    if (b[28] & 0xC0) return ST_FORMAT;
+    if (b[29] != 0xFF) return ST_FORMAT;
     unsigned c = b[30] | (b[31] << 8);
-    if ((c & 0xF800) != 0x7000) return R_FORMAT;
+    if ((c & 0xF800) != 0x7000) return ST_FORMAT;
     s.birthday = v & 1023; s.features = v >> 10;
     memcpy(s.secret, b + 10, 19);
-    if (ref_check_value(&s) != (c & 0x7FF)) return R_CHECKSUM;
-    if (!ref_supported(s.features, mask)) return R_UNSUPPORTED;
+    if (ref_check_value(&s) != (c & 0x7FF)) return ST_CHECKSUM;
+    if (!ref_supported(s.features, mask)) return ST_UNSUPPORTED;
     if (out) *out = s;
-    return R_OK;
+    return ST_OK;
 }
 
 /* ---------------------------------------------------------------- phrase */
@@ -260,9 +260,9 @@ int ref_decode(const char *str, unsigned coin, int lang, unsigned mask, int allo
     char *buf = malloc(cap + 1); char *tok[17]; unsigned c[16]; int st;
     reduce(str, cap, buf);
     int n = split(buf, tok);
-    if (n != 16) { st = R_NUM_WORDS; goto done; }
+    if (n != 16) { st = ST_NUM_WORDS; goto done; }
     if (lang >= 0) {
-        for (int i = 0; i < 16; i++) { int v = ref_recognise(lang, tok[i]); if (v < 0) { st = R_LANG; goto done; } c[i] = (unsigned)v; }
+        for (int i = 0; i < 16; i++) { int v = ref_recognise(lang, tok[i]); if (v < 0) { st = ST_LANG; goto done; } c[i] = (unsigned)v; }
         if (lang_out) *lang_out = lang;
     } else {
         int found = -1, cnt = 0;
@@ -271,18 +271,18 @@ int ref_decode(const char *str, unsigned coin, int lang, unsigned mask, int allo
             for (int i = 0; i < 16 && ok; i++) { int v = ref_recognise(li, tok[i]); if (v < 0) ok = 0; else t[i] = (unsigned)v; }
             if (ok) { cnt++; if (cnt == 1) { found = li; memcpy(c, t, sizeof c); } }
         }
-        if (cnt == 0) { st = R_LANG; goto done; }
-        if (cnt > 1) { st = R_MULT_LANG; goto done; }
+        if (cnt == 0) { st = ST_LANG; goto done; }
+        if (cnt > 1) { st = ST_MULT_LANG; goto done; }
         if (lang_out) *lang_out = found;
     }
     c[1] ^= (coin & 2047);
-    if (ref_eval(c) != 0) { st = R_CHECKSUM; goto done; }
-    if (alloc_fails) { st = R_MEMORY; goto done; }
+    if (ref_eval(c) != 0) { st = ST_CHECKSUM; goto done; }
+    if (alloc_fails) { st = ST_MEMORY; goto done; }
     {
         rseed s; ref_from_coeffs(c, &s);
-        if (!ref_supported(s.features, mask)) { st = R_UNSUPPORTED; goto done; }
+        if (!ref_supported(s.features, mask)) { st = ST_UNSUPPORTED; goto done; }
         if (out) *out = s;
-        st = R_OK;
+        st = ST_OK;
     }
 done:
     free(buf);
